@@ -84,6 +84,32 @@ def replay_file(path):
     return {'violated': False, 'error': 'replay produced no result: %s %s' % (p.stdout[-300:], p.stderr[-600:])}
 
 
+def replay_files(paths):
+    """replay many files in one fresh uninstrumented process; returns one result per file"""
+    env = dict(os.environ)
+    env['PYTHONPATH'] = VERIF + os.pathsep + REPO_PY
+    env['PYTHONDONTWRITEBYTECODE'] = '1'
+    out = []
+    for i in range(0, len(paths), 40):
+        chunk = paths[i:i + 40]
+        try:
+            p = subprocess.run([sys.executable, '-m', 'sx.replay_main'] + chunk, capture_output=True, text=True,
+                               env=env, timeout=60 + 25 * len(chunk), cwd=VERIF)
+            lines = [l for l in p.stdout.splitlines() if l.startswith('{')]
+        except subprocess.TimeoutExpired:
+            lines = []
+        res = []
+        for l in lines:
+            try:
+                res.append(json.loads(l))
+            except ValueError:
+                pass
+        while len(res) < len(chunk):
+            res.append({'violated': False, 'error': 'replay produced no result'})
+        out.extend(res[:len(chunk)])
+    return out
+
+
 def run_check(pid, tier, seed):
     t_start = time.time()
     sys.path.insert(0, VERIF)
@@ -159,6 +185,7 @@ def run_check(pid, tier, seed):
     known_hits = {}
     nonrepro = []
     replays_run = 0
+    extra_confirmed = [0]
     ob_reports = []
     for ob in obs:
         agg = results[ob.name]
@@ -192,17 +219,18 @@ def run_check(pid, tier, seed):
         for need in ob.must_reach:
             if not any(r.endswith(need) or need in r for r in agg.reached):
                 inconclusive.append('%s: never reached %s under instrumentation' % (ob.name, need))
-        # replay: dedup by label+witness; cap per label
+        # replay every distinct counterexample (up to a cap) on the uninstrumented code, one
+        # fresh process per obligation
         seen = set()
+        files = []
         per_label = {}
-        confirmed_labels = set()
         for v in sorted(agg.viols, key=lambda v: -v.get('prio', 0)):
             wj = json.dumps(to_json(v['w']), sort_keys=True)
             key = (v['label'], wj)
             if key in seen:
                 continue
             seen.add(key)
-            if per_label.get(v['label'], 0) >= (3 if len(confirmed_labels & {v['label']}) else 8):
+            if per_label.get(v['label'], 0) >= 40 or len(files) >= 160:
                 continue
             per_label[v['label']] = per_label.get(v['label'], 0) + 1
             h = hashlib.sha1((ob.name + wj).encode()).hexdigest()[:12]
@@ -213,7 +241,10 @@ def run_check(pid, tier, seed):
                 json.dump({'property': pid, 'obligation': ob.name, 'label': v['label'],
                            'witness': to_json(v['w']), 'choices': to_json(v.get('choices'))}, f, indent=1,
                           sort_keys=True)
-            r = replay_file(path)
+            files.append((v, path))
+        results_r = replay_files([p for _, p in files]) if files else []
+        shown = {}
+        for (v, path), r in zip(files, results_r):
             replays_run += 1
             if r.get('violated'):
                 sig = r.get('signature', '')
@@ -223,11 +254,18 @@ def run_check(pid, tier, seed):
                         hit = kf
                         break
                 if hit is not None:
-                    known_hits.setdefault(sig, (hit, path, r))
-                    os.remove(path) if len(known_hits) > 50 else None
+                    if sig in known_hits:
+                        os.remove(path)
+                    else:
+                        known_hits[sig] = (hit, path, r)
                 else:
-                    violations.append((ob.name, v['label'], path, r))
-                confirmed_labels.add(v['label'])
+                    k2 = (v['label'], sig)
+                    shown[k2] = shown.get(k2, 0) + 1
+                    if shown[k2] <= 3:
+                        violations.append((ob.name, v['label'], path, r))
+                    else:
+                        os.remove(path)
+                        extra_confirmed[0] += 1
             else:
                 nonrepro.append((ob.name, v['label'], path, r))
         rep['violations_found'] = len(agg.viols)
@@ -246,6 +284,8 @@ def run_check(pid, tier, seed):
     for obn, label, path, r in nonrepro[:10]:
         log('  NOT-REPRODUCED (engine/model mismatch, inconclusive) obligation=%s label=%s file=%s %s' % (
             obn, label, path, str(r)[:300]))
+    if extra_confirmed[0]:
+        log('  (%d further replay-confirmed counterexamples with the same label/signature not listed)' % extra_confirmed[0])
     if nonrepro:
         inconclusive.append('%d counterexample(s) did not reproduce on the uninstrumented code' % len(nonrepro))
 
